@@ -55,6 +55,9 @@ class BufSpec(FnSpec):
             return None
         return {"Inotify": ino_ctor, "DelayedQueue": lambda ex, a, k, n: VOpaque("queue"), "BaseThread.__init__": lambda ex, recv, a, k, n: None, "threading.Thread.start": tstart,
                 "inotify.close": log("inotify.close"), "queue.close": log("queue.close"), "event.set": log("event.set"), "InotifyBuffer.join": join,
+                # the reader thread may have ended by itself already (root deleted or unmounted): close() still has to stop and
+                # wake everything that waits on the buffer's queue
+                "InotifyBuffer.is_alive": lambda ex, recv, a, k, n: VBool(ex.fresh_term(z3.BoolSort(), "reader_thread_alive")),
                 # the flag may already be set on entry (close() after the reader stopped itself, stop() twice, start() after stop())
                 "event.is_set": lambda ex, recv, a, k, n: VBool(z3.BoolVal(True)) if "event.set" in self.log else VBool(ex.fresh_term(z3.BoolSort(), "flag_already_set"))}
 
@@ -110,7 +113,15 @@ class EmitterStop(FnSpec):
 
 def make_specs():
     W = IRWorld()
-    return [Init(W, PROP), CloseResources(W, PROP), Close(W, PROP), ReadEvents(W, PROP, want=("fds",)), BufSpec("__init__"), BufSpec("on_thread_stop"), BufSpec("close"), EmitterStop()]
+    out = [Init(W, PROP), CloseResources(W, PROP), Close(W, PROP), ReadEvents(W, PROP, want=("fds",)), BufSpec("__init__"), BufSpec("on_thread_stop"), BufSpec("close"), EmitterStop()]
+    # "whenever ... start() fails at any step with an error": an emitter whose start() raised - whatever it raised, its
+    # descriptors and reader thread may already exist - is stopped (which releases them) and removed
+    from specs import c13
+    for sp in c13.make_specs():
+        if sp.qualname == "BaseObserver.start":
+            sp.prop = PROP
+            out.append(sp)
+    return out
 
 
 EXPECTED_CLAUSES = ["Inotify.__init__.raises[nothing leaked", "Inotify.__init__.post[not closed, no read in flight", "Inotify.close.post[released now, or left to the reader", "Inotify.close.release[guarantee: never releases under a read in flight]",
